@@ -46,8 +46,10 @@ ASSUME H < 50 /\ NVals < 50 /\ NKeys < 50
 Min2(x, y) == IF x <= y THEN x ELSE y
 MinOf(X) == CHOOSE m \in X : \A y \in X : m <= y
 NDSeqs(n) == {s \in [1..n -> 1..MaxT] : \A j \in 1..(n - 1) : s[j] <= s[j + 1]}
-Timelines == UNION {{[j \in 1..n |-> [t |-> ts[j], v |-> vs[j]]] : ts \in NDSeqs(n), vs \in [1..n -> Vals]} : n \in 0..MaxLen}
-Untimed == UNION {{[j \in 1..n |-> [t |-> Min2(j, MaxT), v |-> vs[j]]] : vs \in [1..n -> Vals]} : n \in 0..LongLen}
+\* (parameterised on purpose: TLC evaluates zero-arity constant definitions eagerly, and these sets are huge for the
+\*  instances whose scenarios are read from a file - OpsGroupScn - where they are never needed)
+Timelines(m) == UNION {{[j \in 1..n |-> [t |-> ts[j], v |-> vs[j]]] : ts \in NDSeqs(n), vs \in [1..n -> Vals]} : n \in 0..m}
+Untimed(m) == UNION {{[j \in 1..n |-> [t |-> Min2(j, MaxT), v |-> vs[j]]] : vs \in [1..n -> Vals]} : n \in 0..m}
 LastT(s)  == IF Len(s) = 0 THEN 1 ELSE s[Len(s)].t
 TermsOf(s) == {[k |-> kk, t |-> tt] : kk \in Terms \ {"U"}, tt \in LastT(s)..MaxT}
               \cup (IF "U" \in Terms THEN {[k |-> "U", t |-> INF]} ELSE {})
@@ -64,26 +66,26 @@ ModTab  == [v \in Vals |-> v % NKeys]
 RevTab  == [v \in Vals |-> (NKeys - 1) - (v % NKeys)]
 ZeroTab == [v \in Vals |-> 0]
 LastRaises(f) == [v \in Vals |-> IF v = NVals - 1 THEN RAISE ELSE f[v]]
-KTables == IF KeyMode = "all" THEN [Vals -> Keys \cup (IF Faults THEN {RAISE} ELSE {})]
+KTables(z) == IF KeyMode = "all" THEN [Vals -> Keys \cup (IF Faults THEN {RAISE} ELSE {})]
            ELSE {ModTab, ZeroTab} \cup (IF KeyMode = "some3" THEN {RevTab} ELSE {}) \cup (IF Faults THEN {LastRaises(ModTab)} ELSE {})
-ETables == CASE ElemMode = "none" -> {}
+ETables(z) == CASE ElemMode = "none" -> {}
              [] ElemMode = "some" -> {RotTab} \cup (IF Faults THEN {LastRaises(RotTab)} ELSE {})
              [] OTHER -> [Vals -> Vals \cup (IF Faults THEN {RAISE} ELSE {})]
 \* em = FALSE: no element mapper is passed at all (ef is then the identity)
-ElemChoices == {[em |-> FALSE, ef |-> IdTab]} \cup {[em |-> TRUE, ef |-> f] : f \in ETables}
-PTables == [Vals -> (IF Faults THEN {0, 1, 2} ELSE {0, 1})]      \* 2 = the predicate raises
+ElemChoices(z) == {[em |-> FALSE, ef |-> IdTab]} \cup {[em |-> TRUE, ef |-> f] : f \in ETables(z)}
+PTables(z) == [Vals -> (IF Faults THEN {0, 1, 2} ELSE {0, 1})]      \* 2 = the predicate raises
 PIdx(p, v, idx) == IF p[v] = 2 THEN 2 ELSE (p[v] + idx) % 2      \* verdict flips with the parity of the index
 DurSeqs == UNION {[1..n -> Durs \cup {DNever}] : n \in 1..2}
 FaultCalls == IF Faults THEN 0..2 ELSE {0}
 
 ParamsOf(o) ==
-  CASE o = "group_by" -> {[kf |-> k, em |-> e.em, ef |-> e.ef] : k \in KTables, e \in ElemChoices}
+  CASE o = "group_by" -> {[kf |-> k, em |-> e.em, ef |-> e.ef] : k \in KTables(0), e \in ElemChoices(0)}
     [] o = "group_by_until" ->
          {[kf |-> k, em |-> e.em, ef |-> e.ef, durs |-> d, dk |-> dk, fr |-> fr, dn |-> 0] :
-            k \in KTables, e \in ElemChoices, d \in DurSeqs, dk \in DKinds, fr \in FaultCalls}
+            k \in KTables(0), e \in ElemChoices(0), d \in DurSeqs, dk \in DKinds, fr \in FaultCalls}
          \cup {[kf |-> k, em |-> e.em, ef |-> e.ef, durs |-> <<DNever>>, dk |-> "N", fr |-> 0, dn |-> n] :
-            k \in KTables, e \in ElemChoices, n \in DCounts}
-    [] OTHER -> [p : PTables]
+            k \in KTables(0), e \in ElemChoices(0), n \in DCounts}
+    [] OTHER -> [p : PTables(0)]
 
 IsPart == op \in {"partition", "partition_indexed"}
 DurOf(g) == IF op = "group_by_until" THEN par.durs[((g - 1) % Len(par.durs)) + 1] ELSE DNever
@@ -166,7 +168,7 @@ HasFault == IF IsPart THEN FALSE
 
 (* ---- the runner -------------------------------------------------------------------------------- *)
 Init == /\ op \in Ops
-        /\ src \in (IF op = "group_by_until" THEN Timelines ELSE Untimed)
+        /\ src \in (IF op = "group_by_until" THEN Timelines(MaxLen) ELSE Untimed(LongLen))
         /\ term \in TermsOf(src)
         /\ par \in ParamsOf(op)
         /\ dsp \in (IF Disposes THEN 0..MaxT ELSE {}) \cup {INF}
